@@ -186,14 +186,17 @@ def main(tier, replay=None, selftest=False):
         prerun = case["program"] in ("valid", "validWide") and case["flags"]["selected_operation"] and case["placement"] != "outdirMissing" and n % 2 == 0
         if prerun:
             pre = dict(case, flags=dict(case["flags"], selected_operation=""))
-            subprocess.run([CLI] + argv(pre, root), stdout=subprocess.PIPE, stderr=subprocess.PIPE, timeout=120)
+            try:
+                subprocess.run([CLI] + argv(pre, root), stdout=subprocess.PIPE, stderr=subprocess.PIPE, timeout=40)
+            except subprocess.TimeoutExpired:
+                pass        # (the run under test below reports the hang)
         before = snapshot(root)
         try:
-            p = subprocess.run([CLI] + argv(case, root), stdout=subprocess.PIPE, stderr=subprocess.PIPE, text=True, timeout=120,
+            p = subprocess.run([CLI] + argv(case, root), stdout=subprocess.PIPE, stderr=subprocess.PIPE, text=True, timeout=40,
                                env=dict(os.environ, RUST_LOG="off"))
         except subprocess.TimeoutExpired:
             # (a process that hangs is data, not a tool error)
-            p = subprocess.CompletedProcess([CLI], returncode=-999, stdout="", stderr="the command did not terminate within 120 s")
+            p = subprocess.CompletedProcess([CLI], returncode=-999, stdout="", stderr="the command did not terminate within 40 s")
         after = snapshot(root)
         created = sorted(k for k in after if k not in before)
         modified = sorted(k for k in after if k in before and after[k] != before[k])
